@@ -1,0 +1,335 @@
+//! Verification hooks. Only compiled with `--cfg unimock_verif`.
+//!
+//! Nothing in here changes what unimock does. The wrappers forward to the real
+//! primitives; before each shared-memory operation they call a process-global
+//! hook (if one was installed) so that an external deterministic scheduler can
+//! decide which thread performs its next operation.
+
+use core::any::TypeId;
+use core::sync::atomic::Ordering;
+
+use crate::alloc::{Box, String, ToString, Vec};
+use crate::clause::term::Sink;
+use crate::fn_mocker::PatternMatchMode;
+use crate::{Clause, Unimock};
+
+/// The kind of operation that is about to happen at a yield point.
+#[derive(Clone, Copy, Debug, Eq, PartialEq, Hash)]
+pub enum Site {
+    /// An atomic load
+    AtomicLoad,
+    /// An atomic store
+    AtomicStore,
+    /// An atomic read-modify-write
+    AtomicRmw,
+    /// A lock acquisition
+    Lock,
+    /// Reading a once-cell
+    CellGet,
+    /// Writing a once-cell
+    CellSet,
+    /// Taking the value out of a once-cell (exclusive access)
+    CellTake,
+    /// Unimock::clone
+    Clone,
+    /// Unimock::drop
+    Drop,
+    /// Arc::strong_count in teardown
+    StrongCount,
+    /// Entering a region in which the thread must not be descheduled
+    EnterCritical,
+    /// Leaving such a region
+    ExitCritical,
+}
+
+static HOOK: once_cell::sync::OnceCell<fn(Site)> = once_cell::sync::OnceCell::new();
+
+/// Install the process-global yield hook. Returns false if one was installed already.
+pub fn set_yield_hook(hook: fn(Site)) -> bool {
+    HOOK.set(hook).is_ok()
+}
+
+/// A point at which another thread may be scheduled.
+#[inline]
+pub fn yield_point(site: Site) {
+    if let Some(hook) = HOOK.get() {
+        hook(site)
+    }
+}
+
+/// Guard for a region in which the scheduler must not deschedule the thread
+/// (it holds a real lock, or runs inside a real once-cell initializer).
+pub struct CriticalGuard(());
+
+impl CriticalGuard {
+    /// Enter the region
+    pub fn enter() -> Self {
+        yield_point(Site::EnterCritical);
+        Self(())
+    }
+}
+
+impl Drop for CriticalGuard {
+    fn drop(&mut self) {
+        yield_point(Site::ExitCritical);
+    }
+}
+
+/// Instrumented AtomicUsize: every operation is preceded by a yield point.
+pub struct AtomicUsize(core::sync::atomic::AtomicUsize);
+
+#[allow(missing_docs)]
+impl AtomicUsize {
+    pub const fn new(value: usize) -> Self {
+        Self(core::sync::atomic::AtomicUsize::new(value))
+    }
+
+    pub fn load(&self, order: Ordering) -> usize {
+        yield_point(Site::AtomicLoad);
+        self.0.load(order)
+    }
+
+    pub fn store(&self, value: usize, order: Ordering) {
+        yield_point(Site::AtomicStore);
+        self.0.store(value, order)
+    }
+
+    pub fn swap(&self, value: usize, order: Ordering) -> usize {
+        yield_point(Site::AtomicRmw);
+        self.0.swap(value, order)
+    }
+
+    pub fn fetch_add(&self, value: usize, order: Ordering) -> usize {
+        yield_point(Site::AtomicRmw);
+        self.0.fetch_add(value, order)
+    }
+
+    pub fn fetch_sub(&self, value: usize, order: Ordering) -> usize {
+        yield_point(Site::AtomicRmw);
+        self.0.fetch_sub(value, order)
+    }
+
+    pub fn fetch_max(&self, value: usize, order: Ordering) -> usize {
+        yield_point(Site::AtomicRmw);
+        self.0.fetch_max(value, order)
+    }
+
+    pub fn compare_exchange(
+        &self,
+        current: usize,
+        new: usize,
+        success: Ordering,
+        failure: Ordering,
+    ) -> Result<usize, usize> {
+        yield_point(Site::AtomicRmw);
+        self.0.compare_exchange(current, new, success, failure)
+    }
+
+    pub fn compare_exchange_weak(
+        &self,
+        current: usize,
+        new: usize,
+        success: Ordering,
+        failure: Ordering,
+    ) -> Result<usize, usize> {
+        yield_point(Site::AtomicRmw);
+        // never fails spuriously: the simulation must stay deterministic
+        self.0.compare_exchange(current, new, success, failure)
+    }
+
+    pub fn fetch_update<F>(
+        &self,
+        set_order: Ordering,
+        fetch_order: Ordering,
+        mut f: F,
+    ) -> Result<usize, usize>
+    where
+        F: FnMut(usize) -> Option<usize>,
+    {
+        let mut prev = self.load(fetch_order);
+        while let Some(next) = f(prev) {
+            match self.compare_exchange(prev, next, set_order, fetch_order) {
+                x @ Ok(_) => return x,
+                Err(next_prev) => prev = next_prev,
+            }
+        }
+        Err(prev)
+    }
+
+    pub fn get_mut(&mut self) -> &mut usize {
+        self.0.get_mut()
+    }
+
+    pub fn into_inner(self) -> usize {
+        self.0.into_inner()
+    }
+
+    /// Read without a yield point (used by `snapshot` only).
+    fn peek(&self) -> usize {
+        self.0.load(Ordering::SeqCst)
+    }
+}
+
+/// Instrumented once_cell::sync::OnceCell
+pub struct OnceCell<T>(once_cell::sync::OnceCell<T>);
+
+#[allow(missing_docs)]
+impl<T> OnceCell<T> {
+    pub const fn new() -> Self {
+        Self(once_cell::sync::OnceCell::new())
+    }
+
+    pub const fn with_value(value: T) -> Self {
+        Self(once_cell::sync::OnceCell::with_value(value))
+    }
+
+    pub fn get(&self) -> Option<&T> {
+        yield_point(Site::CellGet);
+        self.0.get()
+    }
+
+    pub fn get_mut(&mut self) -> Option<&mut T> {
+        self.0.get_mut()
+    }
+
+    pub fn set(&self, value: T) -> Result<(), T> {
+        yield_point(Site::CellSet);
+        let _critical = CriticalGuard::enter();
+        self.0.set(value)
+    }
+
+    pub fn try_insert(&self, value: T) -> Result<&T, (&T, T)> {
+        yield_point(Site::CellSet);
+        let _critical = CriticalGuard::enter();
+        self.0.try_insert(value)
+    }
+
+    pub fn get_or_init<F>(&self, f: F) -> &T
+    where
+        F: FnOnce() -> T,
+    {
+        yield_point(Site::CellSet);
+        let _critical = CriticalGuard::enter();
+        self.0.get_or_init(f)
+    }
+
+    pub fn take(&mut self) -> Option<T> {
+        yield_point(Site::CellTake);
+        self.0.take()
+    }
+
+    pub fn into_inner(self) -> Option<T> {
+        self.0.into_inner()
+    }
+}
+
+impl<T> Default for OnceCell<T> {
+    fn default() -> Self {
+        Self::new()
+    }
+}
+
+impl<T> From<T> for OnceCell<T> {
+    fn from(value: T) -> Self {
+        Self::with_value(value)
+    }
+}
+
+/// A type-erased clause, so that clause lists whose length is only known at run time
+/// can be assembled outside the crate. Every terminal clause still goes through its own
+/// real `Clause::deconstruct`.
+pub struct DynClause(Box<dyn FnOnce(&mut dyn Sink) -> Result<(), String>>);
+
+impl DynClause {
+    /// Erase the type of a clause.
+    pub fn new(clause: impl Clause + 'static) -> Self {
+        Self(Box::new(move |sink| clause.deconstruct(sink)))
+    }
+}
+
+impl Clause for DynClause {
+    fn deconstruct(self, sink: &mut dyn Sink) -> Result<(), String> {
+        (self.0)(sink)
+    }
+}
+
+impl Clause for Vec<DynClause> {
+    fn deconstruct(self, sink: &mut dyn Sink) -> Result<(), String> {
+        for clause in self {
+            clause.deconstruct(sink)?;
+        }
+        Ok(())
+    }
+}
+
+/// Observable state of one mocked method.
+#[derive(Clone, Debug, Eq, PartialEq)]
+pub struct MethodSnapshot {
+    /// TypeId of the MockFn
+    pub type_id: TypeId,
+    /// Trait identifier
+    pub trait_ident: &'static str,
+    /// Method identifier
+    pub method_ident: &'static str,
+    /// Whether its patterns are `next_call` patterns
+    pub ordered: bool,
+    /// Current match count of every pattern, in pattern order
+    pub counts: Vec<usize>,
+}
+
+/// Observable state shared by a mock and its clones.
+#[derive(Clone, Debug, Eq, PartialEq)]
+pub struct Snapshot {
+    /// The number of calls made to ordered methods so far
+    pub ordered_index: usize,
+    /// Per method state, in the mock's internal order
+    pub methods: Vec<MethodSnapshot>,
+    /// Display text of every recorded mock error
+    pub errors: Vec<String>,
+    /// Number of live handles to the shared state
+    pub strong_count: usize,
+}
+
+/// Read the observable shared state. Performs no yield points.
+pub fn snapshot(unimock: &Unimock) -> Snapshot {
+    let shared = &unimock.shared_state;
+    Snapshot {
+        ordered_index: shared.verif_peek_ordered_index(),
+        methods: shared
+            .fn_mockers
+            .values()
+            .map(|fn_mocker| MethodSnapshot {
+                type_id: fn_mocker.info.type_id,
+                trait_ident: fn_mocker.info.path.trait_ident(),
+                method_ident: fn_mocker.info.path.method_ident(),
+                ordered: fn_mocker.pattern_match_mode == PatternMatchMode::InOrder,
+                counts: fn_mocker
+                    .call_patterns
+                    .iter()
+                    .map(|pattern| pattern.call_counter.verif_peek())
+                    .collect(),
+            })
+            .collect(),
+        errors: shared
+            .panic_reasons
+            .verif_peek(|reasons| reasons.iter().map(|error| error.to_string()).collect()),
+        strong_count: crate::alloc::Arc::strong_count(shared),
+    }
+}
+
+/// Whether this instance is the original (not a clone).
+pub fn is_original(unimock: &Unimock) -> bool {
+    unimock.original_instance
+}
+
+impl crate::state::SharedState {
+    fn verif_peek_ordered_index(&self) -> usize {
+        self.verif_ordered_index().peek()
+    }
+}
+
+impl crate::counter::CallCounter {
+    fn verif_peek(&self) -> usize {
+        self.verif_actual_count().peek()
+    }
+}
